@@ -64,6 +64,7 @@ type c25Rec struct {
 	evicted []int
 	lastRd  [2]int
 	closedSeen,
+	closedEmitted,
 	osMode bool
 	nreq    int
 	foreign int
@@ -377,6 +378,16 @@ func (r *c25Rec) fileIDLocked(ff *fsFile) int {
 	return id
 }
 
+// observeClosedLocked is called from hook callbacks that run under cm.cacheLock: the first critical
+// section in which cm.closed is found set logs "fs.closed" (on the unchanged tree that is the
+// critical section of close() itself, immediately before its "fs.close").
+func (r *c25Rec) observeClosedLocked(cm any) {
+	if m, ok := cm.(*inMemoryCacheManager); ok && m != nil && m.closed && !r.closedEmitted {
+		r.closedEmitted = true
+		r.emitLocked(vfRec{"ev": "fs.closed"})
+	}
+}
+
 // handleOfLocked returns the handle id behind an fs.File of this execution (0: none / untracked).
 func (r *c25Rec) handleOfLocked(f fs.File) int {
 	switch x := f.(type) {
@@ -421,6 +432,7 @@ func (r *c25Rec) hook(ev string, o1, o2 any, a, b int) {
 			r.foreign++
 			return
 		}
+		r.observeClosedLocked(o1)
 		e := vfRec{"ev": "fs.get", "r": req, "k": a, "p": r.pathID[r.reqPath[req]], "f": 0, "rc": 0}
 		if ff, _ := o2.(*fsFile); ff != nil {
 			e["f"] = r.fileIDLocked(ff)
@@ -441,6 +453,7 @@ func (r *c25Rec) hook(ev string, o1, o2 any, a, b int) {
 			r.foreign++
 			return
 		}
+		r.observeClosedLocked(any(ff.h.cacheManager))
 		r.reqHave[req] = true
 		hid := 0
 		if of, ok := ff.f.(*os.File); ok && of != nil {
@@ -470,6 +483,7 @@ func (r *c25Rec) hook(ev string, o1, o2 any, a, b int) {
 			r.foreign++
 			return
 		}
+		r.observeClosedLocked(o1)
 		rel := 0
 		switch cm := o1.(type) {
 		case *inMemoryCacheManager:
@@ -491,6 +505,7 @@ func (r *c25Rec) hook(ev string, o1, o2 any, a, b int) {
 		if o1 != r.cm || r.cm == nil {
 			return
 		}
+		r.observeClosedLocked(o1)
 		evs := append([]int{}, r.evicted...)
 		r.evicted = r.evicted[:0]
 		if len(evs) == 0 && a == 0 {
@@ -501,6 +516,7 @@ func (r *c25Rec) hook(ev string, o1, o2 any, a, b int) {
 		if o1 != r.cm || r.cm == nil {
 			return
 		}
+		r.observeClosedLocked(o1)
 		r.closedSeen = true
 		r.emitLocked(vfRec{"ev": "fs.close", "nrel": a, "npend": b})
 	case "fs.release":
@@ -535,9 +551,10 @@ type c25Cfg struct {
 	burst     bool // every client starts with the same target at the same moment
 	faultSeek int  // mem: see c25MemFS
 	faultHdr  int
-	badZRoot  bool // os: CompressRoot below a regular file (MkdirAll fails)
-	forceKind int  // >= 0: every request is of this kind (see c25Client)
-	first     int  // >= 0: burst target
+	badZRoot  bool   // os: CompressRoot below a regular file (MkdirAll fails)
+	forceKind int    // >= 0: every request is of this kind (see c25Client)
+	first     int    // >= 0: burst target
+	gated     string // lock-step scenario: the order in which closer (C) and last readers (R) get cacheLock
 }
 
 type c25Target struct {
@@ -577,6 +594,7 @@ func c25OpenFDs(base string) []string {
 }
 
 type c25Result struct {
+	gateOK           bool
 	nontrivial       bool
 	faults           int
 	dur              time.Duration
@@ -584,12 +602,11 @@ type c25Result struct {
 	key, detail      string
 }
 
-func c25RunOne(t *testing.T, rng *rand.Rand, tw *vfTraceWriter, trNo int, cfg c25Cfg, baseDir string) c25Result {
-	const cacheDur = 4 * time.Millisecond
+// c25Setup builds the recorder, the tree, the FS and its (request-registering) handler.
+func c25Setup(t *testing.T, rng *rand.Rand, trNo int, cfg c25Cfg, baseDir string, cacheDur time.Duration) (*c25Rec, RequestHandler, string, map[string][]byte, chan struct{}) {
 	rec := &c25Rec{fid: map[*fsFile]int{}, greq: map[uint64]int{}, pathID: map[string]int{}, reqPath: []string{""},
 		osMode: cfg.mode == "os", lastRd: [2]int{-1, -1}, reqHave: map[int]bool{},
 		jitter: rand.New(rand.NewSource(rng.Int63()))}
-	t0 := time.Now()
 	tree := c25Tree()
 	cleanStop := make(chan struct{})
 	fsys := &FS{
@@ -642,22 +659,31 @@ func c25RunOne(t *testing.T, rng *rand.Rand, tw *vfTraceWriter, trNo int, cfg c2
 	}
 	rec.fsys = fsys
 	VerifHook = rec.hook
-	fh := fsys.NewRequestHandler()
+	inner := fsys.NewRequestHandler()
+	// the handler the drivers use: registers the request with the calling goroutine first
+	fh := func(ctx *RequestCtx) {
+		p := string(ctx.Path())
+		rec.mu.Lock()
+		rec.nreq++
+		id := rec.nreq
+		rec.reqPath = append(rec.reqPath, p)
+		if _, ok := rec.pathID[p]; !ok {
+			rec.pathID[p] = len(rec.pathID) + 1
+		}
+		rec.greq[vfGid()] = id
+		rec.mu.Unlock()
+		inner(ctx)
+	}
+	return rec, fh, root, tree, cleanStop
+}
+
+func c25RunOne(t *testing.T, rng *rand.Rand, tw *vfTraceWriter, trNo int, cfg c25Cfg, baseDir string) c25Result {
+	const cacheDur = 4 * time.Millisecond
+	t0 := time.Now()
+	rec, fh, root, tree, cleanStop := c25Setup(t, rng, trNo, cfg, baseDir, cacheDur)
 	ln := fasthttputil.NewInmemoryListener()
 	srv := &Server{
-		Handler: func(ctx *RequestCtx) {
-			p := string(ctx.Path())
-			rec.mu.Lock()
-			rec.nreq++
-			id := rec.nreq
-			rec.reqPath = append(rec.reqPath, p)
-			if _, ok := rec.pathID[p]; !ok {
-				rec.pathID[p] = len(rec.pathID) + 1
-			}
-			rec.greq[vfGid()] = id
-			rec.mu.Unlock()
-			fh(ctx)
-		},
+		Handler:         fh,
 		Logger:          c25NullLogger{},
 		WriteBufferSize: 4096,
 	}
@@ -718,31 +744,142 @@ func c25RunOne(t *testing.T, rng *rand.Rand, tw *vfTraceWriter, trNo int, cfg c2
 	doStop(3)
 	<-stopped
 
-	// quiescence: the manager reported closed (in-memory manager) and no handle is open any more;
-	// then a grace period so that a stray late Close / Release would still be recorded
-	deadline := time.Now().Add(10 * time.Second)
-	allClosed := func() (bool, string) {
-		rec.mu.Lock()
-		defer rec.mu.Unlock()
-		if !cfg.skipCache && rec.cm != nil && !rec.closedSeen {
-			return false, "cache manager not closed yet"
-		}
-		for _, h := range rec.handles {
-			if h.closes.Load() == 0 {
-				return false, fmt.Sprintf("handle %d (%s) still open", h.id, h.name)
-			}
-		}
-		return true, ""
+	return c25Finish(rec, cfg, tw, trNo, root, t0, &bodyErr)
+}
+
+// c25RunGated is the lock-step scenario: responses that each hold the (last) reference of a
+// cached file finish exactly while the cache manager is being closed.  The harness takes
+// cm.cacheLock itself, parks the closer (CleanStop closed, or cacheManager.Close() as the
+// handler finaliser does) and the finishing responses on it in a seeded order -- each one is
+// started only after the previous one is seen blocked in sync.Mutex.Lock -- lets them wait
+// longer than sync.Mutex's starvation threshold and then releases the lock so that it is handed
+// over strictly in arrival order.  A response queued behind the closer therefore runs its
+// DecReadersCount immediately after the closer's (first) critical section.  No verdict depends
+// on the gate: if it cannot be established the execution is just an ordinary one.
+func c25RunGated(t *testing.T, rng *rand.Rand, tw *vfTraceWriter, trNo int, cfg c25Cfg, baseDir string) c25Result {
+	t0 := time.Now()
+	rec, fh, root, tree, cleanStop := c25Setup(t, rng, trNo, cfg, baseDir, time.Hour)
+	type gresp struct {
+		ctx  *RequestCtx
+		id   int
+		path string
 	}
-	for {
-		ok, _ := allClosed()
-		if ok || time.Now().After(deadline) {
+	targets := []string{"/big.txt", "/tiny.txt", "/huge.txt", "/edge8192.txt", "/dir/in.txt", "/edge8193.txt"}
+	var resps []*gresp
+	nresp := strings.Count(cfg.gated, "R")
+	for i := 0; i < nresp; i++ {
+		p := targets[rng.Intn(len(targets))]
+		if i > 0 && rng.Intn(3) == 0 {
+			p = resps[0].path // several readers of one file: only the last one releases
+		}
+		var req Request
+		req.SetRequestURI(p)
+		req.Header.SetHost("h")
+		ctx := &RequestCtx{}
+		ctx.Init(&req, nil, c25NullLogger{})
+		fh(ctx)
+		rec.mu.Lock()
+		id := rec.nreq
+		rec.mu.Unlock()
+		resps = append(resps, &gresp{ctx: ctx, id: id, path: p})
+	}
+	var bodyErr atomic.Value
+	gateOK := true
+	parked := func(n int, subs ...string) {
+		subs = append(subs, "[sync.Mutex.Lock")
+		dl := time.Now().Add(20 * time.Second)
+		for c25Goroutines(subs...) < n {
+			if time.Now().After(dl) {
+				gateOK = false
+				return
+			}
+			time.Sleep(200 * time.Microsecond)
+		}
+	}
+	cmi, _ := rec.cm.(cacheManager)
+	if cmi == nil {
+		vfInfra("gated scenario: cache manager unknown")
+		return c25Result{}
+	}
+	var wg sync.WaitGroup
+	cmi.Lock()
+	nr := 0
+	for _, who := range cfg.gated {
+		if who == 'C' {
+			if cfg.stopMode == 1 {
+				wg.Add(1)
+				go func() { defer wg.Done(); cmi.Close() }()
+			} else {
+				close(cleanStop)
+			}
+			parked(1, "inMemoryCacheManager).close")
+			continue
+		}
+		rp := resps[nr]
+		nr++
+		wg.Add(1)
+		go func() {
+			defer wg.Done()
+			rec.mu.Lock()
+			rec.greq[vfGid()] = rp.id
+			rec.mu.Unlock()
+			var body bytes.Buffer
+			err := rp.ctx.Response.BodyWriteTo(&body) // streams the file, closes the reader -> DecReadersCount
+			if want, ok := tree[rp.path[1:]]; ok && rp.ctx.Response.StatusCode() == StatusOK && (err != nil || !bytes.Equal(body.Bytes(), want)) {
+				bodyErr.CompareAndSwap(nil, fmt.Sprintf("GET %s: body of %d bytes (error %v) differs from the file's %d bytes", rp.path, body.Len(), err, len(want)))
+			}
+		}()
+		parked(nr, "DecReadersCount")
+	}
+	time.Sleep(3 * time.Millisecond) // every waiter is now older than the mutex's starvation threshold
+	cmi.Unlock()
+	cmi.Lock() // the woken first waiter finds the lock taken again and switches it to FIFO hand-over
+	time.Sleep(3 * time.Millisecond)
+	cmi.Unlock()
+	wg.Wait()
+	if cfg.stopMode == 1 {
+		close(cleanStop)
+	}
+	res := c25Finish(rec, cfg, tw, trNo, root, t0, &bodyErr)
+	res.gateOK = gateOK
+	return res
+}
+
+// c25Goroutines reports how many goroutines have a stack containing every given substring.
+func c25Goroutines(subs ...string) int {
+	buf := make([]byte, 1<<22)
+	n := runtime.Stack(buf, true)
+	cnt := 0
+	for _, g := range strings.Split(string(buf[:n]), "\n\n") {
+		ok := true
+		for _, sub := range subs {
+			ok = ok && strings.Contains(g, sub)
+		}
+		if ok {
+			cnt++
+		}
+	}
+	return cnt
+}
+
+// c25Finish decides the execution.  Quiescence is established structurally, never by a wait
+// expiring: every client is done, the server is shut down (all body streams closed), the
+// manager was told to close, and no cleaner goroutine (handleCleanCache, which performs the
+// releases of a CleanStop close) exists any more.  From then on no Release can happen, so a
+// handle that is still open stays open.
+func c25Finish(rec *c25Rec, cfg c25Cfg, tw *vfTraceWriter, trNo int, root string, t0 time.Time, bodyErr *atomic.Value) c25Result {
+	deadline := time.Now().Add(120 * time.Second)
+	for c25Goroutines("handleCleanCache") > 0 {
+		if time.Now().After(deadline) {
+			vfInfra("a cache cleaner goroutine is still running 120s after its manager was closed")
 			break
 		}
-		time.Sleep(500 * time.Microsecond)
+		time.Sleep(time.Millisecond)
 	}
-	time.Sleep(3 * cacheDur)
 	rec.mu.Lock()
+	if !cfg.skipCache && rec.cm != nil && !rec.closedSeen {
+		rec.infra = "the cache manager never reported its close"
+	}
 	rec.emitLocked(vfRec{"ev": "quiesce"})
 	VerifHook = nil
 	evs := rec.evs
@@ -786,7 +923,7 @@ func c25RunOne(t *testing.T, rng *rand.Rand, tw *vfTraceWriter, trNo int, cfg c2
 	for _, h := range rec.handles {
 		switch n := h.closes.Load(); {
 		case n == 0:
-			return fail("leak:"+tag+":"+c25Class(h.name), fmt.Sprintf("handle %d (%s) was opened but never closed (manager closed, server shut down, waited 10s)", h.id, h.name))
+			return fail("leak:"+tag+":"+c25Class(h.name), fmt.Sprintf("handle %d (%s) was opened but never closed (manager closed, server shut down, cleaner goroutine gone)", h.id, h.name))
 		case n > 1:
 			return fail("double-close:"+tag+":"+c25Class(h.name), fmt.Sprintf("handle %d (%s) was closed %d times", h.id, h.name, n))
 		}
@@ -806,14 +943,7 @@ func c25RunOne(t *testing.T, rng *rand.Rand, tw *vfTraceWriter, trNo int, cfg c2
 		return res
 	}
 	if cfg.mode == "os" {
-		var fds []string
-		for i := 0; i < 200; i++ {
-			if fds = c25OpenFDs(root); len(fds) == 0 {
-				break
-			}
-			time.Sleep(10 * time.Millisecond)
-		}
-		if len(fds) > 0 {
+		if fds := c25OpenFDs(root); len(fds) > 0 {
 			return fail("fd-leak:"+tag+":"+c25Class(fds[0][len(root):]), fmt.Sprintf("%d file descriptors under the FS root are still open at quiescence: %v", len(fds), fds))
 		}
 		_ = os.RemoveAll(root)
@@ -1007,7 +1137,38 @@ func TestVerifC25FSCache(t *testing.T) {
 	total, reqs, nfail, faults, nontriv := 0, 0, 0, 0, 0
 	var dur time.Duration
 	kinds := map[string]int{}
-	for i := 1; i <= ntr; i++ {
+	ngated := vfEnvInt("VERIF_C25_GATED", 8)
+	orders := []string{"CR", "CRR", "RCR", "CRRR", "RCRR", "RC"}
+	gates := 0
+	for n := 1; n <= ngated+ntr; n++ {
+		i := n - ngated // number of the ordinary execution
+		if n <= ngated {
+			gcfg := c25Cfg{mode: []string{"mem", "os"}[n%2], stopMode: rng.Intn(2), gated: orders[rng.Intn(len(orders))],
+				forceKind: -1, first: -1}
+			if n <= 2 {
+				gcfg.gated = "CR"
+			}
+			res := c25RunGated(t, rng, tw, n, gcfg, baseDir)
+			runtime.GC()
+			total += res.events
+			reqs += res.requests
+			dur += res.dur
+			if res.gateOK {
+				gates++
+			}
+			if res.nontrivial {
+				nontriv++
+			}
+			kinds["gated."+gcfg.mode]++
+			if res.key != "" {
+				vfViol("direct:"+res.key, res.detail, vfRec{"trace": n, "cfg": fmt.Sprintf("%+v", gcfg)})
+				nfail++
+			}
+			if n == 1 {
+				vfSample(vfRec{"trace": n, "cfg": fmt.Sprintf("%+v", gcfg), "events": res.events, "requests": res.requests, "gate": res.gateOK})
+			}
+			continue
+		}
 		cfg := c25Cfg{mode: []string{"mem", "os"}[i%2], skipCache: rng.Intn(7) == 0, compress: rng.Intn(3) == 0,
 			stopMode: rng.Intn(5), clients: 2 + rng.Intn(4), reqs: 2 + rng.Intn(4), burst: rng.Intn(2) == 0,
 			forceKind: -1, first: -1}
@@ -1027,7 +1188,7 @@ func TestVerifC25FSCache(t *testing.T) {
 		if i > 4 {
 			c25RandomFaults(rng, &cfg)
 		}
-		res := c25RunOne(t, rng, tw, i, cfg, baseDir)
+		res := c25RunOne(t, rng, tw, n, cfg, baseDir)
 		runtime.GC()
 		total += res.events
 		reqs += res.requests
@@ -1044,13 +1205,16 @@ func TestVerifC25FSCache(t *testing.T) {
 				ntr = i
 				break
 			}
+		} else if nfail >= 6 {
+			ntr = max(i, 0)
+			break
 		}
 		if i <= 2 {
 			vfSample(vfRec{"trace": i, "cfg": fmt.Sprintf("%+v", cfg), "events": res.events, "requests": res.requests})
 		}
 	}
 	tw.Close()
-	vfStat(ntr, nontriv, vfRec{"events": total, "requests": reqs, "injected_faults": faults, "exec_ms_total": int(dur / time.Millisecond),
+	vfStat(ntr+ngated, nontriv, vfRec{"gated_executions": ngated, "gates_established": gates, "events": total, "requests": reqs, "injected_faults": faults, "exec_ms_total": int(dur / time.Millisecond),
 		"trace_file": os.Getenv("VERIF_WORK") + "/" + name})
 	vfDone()
 }
